@@ -86,7 +86,7 @@ def cases(draw, hazard):
     all_items = [draw(st.lists(PREFIX_ITEM, max_size=4)) for _ in range(k)]       # small things first
     semis = draw(st.booleans())
     for i in range(k):
-        s = draw(st.one_of(G.statement(), G.statement(), G.statement(), st.sampled_from(ONE_LINERS).map(one_liner), paren_led))
+        s = draw(st.one_of(G.statement(True), G.statement(True), G.statement(True), st.sampled_from(ONE_LINERS).map(one_liner), paren_led))
         items = all_items[i]
         pre = ''
         for it in items:
